@@ -8,7 +8,7 @@ THEOREMS = ["C07_source_shape", "C07_retry_any_is_or", "C07_retry_all_is_and", "
             "C07_operators", "C07_wait_combine_is_sum", "C07_wait_plus", "C07_fixed", "C07_exponential_bounds",
             "C07_incrementing_bounds", "C07_random_bounds", "C07_exp_jitter_bounds", "C07_random_exp_bounds",
             "C07_chain_bounds", "C07_combine_nonneg", "C07_deterministic",
-            # nested part (WfModel/PolicyTree.lean)
+            # nested part (WfModel/RpTree.lean)
             "C07_retry_tree_is_formula", "C07_stop_tree_is_formula", "C07_flatten", "C07_operator_chains",
             "C07_operand_order_irrelevant", "C07_builtin_sum", "C07_wait_tree_bounds", "C07_bounds_attained",
             "C07_next_delay_bounded", "C07_next_some_iff", "C07_jitter_free_ignores_seed", "C07_monotone_in_attempts",
@@ -23,7 +23,7 @@ EXPLANATION = (
     "C07_source_shape. Correspondence: random two-level policies evaluated by the real classes and by the model on "
     "exact dyadic inputs (stubbed jitter draw), compared as exact rationals. Implementation-only extreme stream: huge "
     "attempts/bases -> finite, within bounds, no exception, deterministic per seed, seed-dependent. "
-    "Nested part: combinators take combinators as operands, so the model has TREES of any depth and arity (WfModel/PolicyTree.lean); "
+    "Nested part: combinators take combinators as operands, so the model has TREES of any depth and arity (WfModel/RpTree.lean); "
     "every retry/stop tree is the Boolean formula of its leaves, same-kind operands flatten, operator chains a|b|c / a&b&c / a+b+c and "
     "Python's sum() are the n-ary combinator, operand order is irrelevant; every well-formed wait tree (chains and sums nested) stays in "
     "its documented interval for all attempts and draws, the interval ends are attained, a delay returned by a composed policy lies in it; "
@@ -31,7 +31,7 @@ EXPLANATION = (
     "defaults of every constructor parameter, the __init__ bodies, the reflected operators and the function-style constructors "
     "(retry_policy, ConstantDelayRetryPolicy, ExponentialBackoffRetryPolicy, wait_full_jitter, wait_none) are regenerated "
     "(harness/gen/rp_ctors.py -> Gen.RPC) and pinned by C07_ctor_shape / C07_documented_defaults; the policies they build are proved to do "
-    "what their documentation says. Correspondence `policytree`: nested trees built with named constructors, operator chains, reflected "
+    "what their documentation says. Correspondence `rptree`: nested trees built with named constructors, operator chains, reflected "
     "operators (plain callable on the left) and sum(), constructors with omitted arguments, the function-style constructors; the "
     "documented interval computed by the harness is compared with the model's (tbounds) and checked on the implementation."
 )
@@ -43,7 +43,7 @@ ASSUMPTIONS = [
     "trees: leaves are the built-in strategies / conditions; a user-defined callable as an operand is an arbitrary function in the flat theorems "
     "(C07_flatten, C07_operator_chains, C07_operand_order_irrelevant, C07_builtin_sum) and outside the tree grammar of the bound theorems",
     "Python's operator dispatch (`f + w` with a plain function f goes to w.__radd__(f); sum() starts from the int 0) is transcribed in pySum / the "
-    "chain definitions and exercised by the policytree stream, not derived",
+    "chain definitions and exercised by the rptree stream, not derived",
 ]
 
 
